@@ -30,6 +30,8 @@ def directed_cases():
     for k, sc in enumerate([1e9, 1e9, 1e6, 1e-4, 1e9, 1e3]):
         cases.append(("method", {"cls": ["SmoothStronglyConvexFunction", "SmoothConvexFunction", "ConvexLipschitzFunction"][k % 3],
                                  "mode": "single", "ic_scale": sc, "ic": "dist"}, "d:scaled%d" % k))
+    for k in range(8):
+        cases.append(("soup", {"same_name_lmis": True}, "d:same_name_lmis%d" % k))
     cases.append(("big", {"N": 11}, "d:big"))
     for cls in CLASSES:
         for variant in (0, 1):
